@@ -1,10 +1,93 @@
 import PewDriver.Util
+import PewModel.Thermo
+import Std.Data.HashMap
 open Lean
 namespace PewDriver.C03
-open PewDriver
+open PewDriver Pew.Thermo
 
-def handle (op : String) (_req : Json) : R Json := do
+def jV : V → Json := jOpt jRat
+
+def jImg (r : Option (Img V)) : Json :=
+  match r with
+  | none => jObj [("raises", jStr "error")]
+  | some img => jObj [("names", jList jStr img.names), ("planes", jList (jList (jList jV)) img.planes)]
+
+def jPVal (v : Pew.CsvDir.PVal) : Json := jObj [("val", jV v.val), ("margin", jV v.margin)]
+
+def jParams (p : Option Params) : Json :=
+  match p with
+  | none => jObj [("raises", jStr "error")]
+  | some p => jObj [("times", jList (jList jV) p.times), ("scantime", jPVal p.scantime)]
+
+def jFmt : Fmt → Json
+  | .rows => jStr "rows" | .columns => jStr "columns" | .unknown => jStr "unknown"
+
+def jLoad : LoadResult → Json
+  | .unknownFormat => jObj [("raises", jStr "error")]
+  | .readError => jObj [("raises", jStr "error")]
+  | .ok img p => jObj [("image", jImg (some img)),
+                       ("params", match p with | none => jObj [] | some q => jParams (some q))]
+
+def jTable (t : Table) : Json := jList (jList jStr) t
+
+def parseTokens (j : Json) : R (Array (Array (Array (Array String)))) := do
+  let l ← asList (asList (asList (asList asStr))) j
+  pure (l.map (fun a => (a.map (fun b => (b.map (·.toArray)).toArray)).toArray)).toArray
+
+def handle (op : String) (req : Json) : R Json := do
   match op with
+  | "c03.acq" =>
+    let samples ← getList asStr req "samples"
+    let nscans ← getNat req "nscans"
+    let elements ← getList asStr req "elements"
+    let channels ← getList asStr req "channels"
+    let toks ← fld req "tokens" >>= parseTokens
+    let comma ← getBool req "comma"
+    let delim ← (do let d ← getStr req "delimiter"
+                    match d.toList with
+                    | [c] => pure c
+                    | _ => throw "delimiter must be one character" : R Char)
+    let tbl ← getList (fun j => do
+      let a ← asArr j
+      match a with
+      | [k, v] => do pure ((← asStr k), (← asOpt asRat v))
+      | _ => throw "bad parse table entry") req "parse"
+    let value : Nat → Nat → Nat → Nat → String := fun i s e c =>
+      ((((toks[i]?).bind (·[s]?)).bind (·[e]?)).bind (·[c]?)).getD ""
+    let acq : Acq := { samples := samples, nscans := nscans, elements := elements, channels := channels, value := value }
+    let hm : Std.HashMap String V := Std.HashMap.ofList tbl
+    -- every token the readers can meet must be in the table of float()
+    for i in List.range samples.length do
+      for s in List.range nscans do
+        for e in List.range elements.length do
+          for c in List.range channels.length do
+            let t := value i s e c
+            if !(hm.contains t) || !(hm.contains (fixDec true t)) then throw s!"token {t} not in the parse table"
+    let x : Ext V := { parse := fun t => ((hm.get? t).getD none), readNat := fun t => t.toNat? }
+    let tc := renderCols toString acq
+    let tr := renderRows toString acq
+    let chanRes := channels.zipIdx.map (fun (ch, ci) =>
+      jObj [("channel", jStr ch),
+            ("rows", jImg (readRows x comma ch tr)),
+            ("cols", jImg (readCols x comma ch tc)),
+            ("spec", jImg (some (specImg x comma acq ci)))])
+    let missing ← getList asStr req "missing"
+    let missRes := missing.map (fun ch =>
+      jObj [("channel", jStr ch), ("rows", jImg (readRows x comma ch tr)), ("cols", jImg (readCols x comma ch tc))])
+    let timeIdx := channels.findIdx (· == "Time")
+    let specScan : Json := if timeIdx < channels.length
+      then jPVal (Pew.CsvDir.npRound 4 (specScantime x comma acq timeIdx)) else Json.null
+    pure (jObj [("table_cols", jTable tc), ("table_rows", jTable tr),
+                ("channels", Json.arr chanRes.toArray), ("missing", Json.arr missRes.toArray),
+                ("params_rows", jParams (readParams x true comma tr)),
+                ("params_cols", jParams (readParams x false comma tc)),
+                ("spec_scantime", specScan),
+                ("sniff_rows", jFmt (sniff tr)), ("sniff_cols", jFmt (sniff tc)),
+                ("load_rows", jLoad (load x delim tr false)), ("load_cols", jLoad (load x delim tc false)),
+                ("load_rows_analog", jLoad (load x delim tr true)), ("load_cols_analog", jLoad (load x delim tc true))])
+  | "c03.sniff" =>
+    let lines ← getList asStr req "lines"
+    pure (jObj [("model", jFmt (sniff (lines.map (fun l => [l]))))])
   | _ => throw s!"unknown op {op}"
 
 end PewDriver.C03
